@@ -302,8 +302,12 @@ namespace detail
 	{
 		GLM_STATIC_ASSERT(std::numeric_limits<T>::is_integer, "'bitfieldInsert' only accept integer values");
 
-		T const Mask = static_cast<T>(detail::mask(static_cast<T>(Bits)) << Offset);
-		return (Base & static_cast<T>(~Mask)) | ((Insert << static_cast<T>(Offset)) & Mask);
+		// Insert in the unsigned counterpart of T: left shifts of negative values and the mask of a signed T overflow
+		typedef typename detail::make_unsigned<T>::type U;
+		if(Bits <= 0)
+			return Base;
+		U const Mask = static_cast<U>(detail::mask(static_cast<U>(Bits)) << Offset);
+		return vec<L, T, Q>((vec<L, U, Q>(Base) & static_cast<U>(~Mask)) | ((vec<L, U, Q>(Insert) << static_cast<U>(Offset)) & Mask));
 	}
 
 #if GLM_COMPILER & GLM_COMPILER_VC
